@@ -81,6 +81,16 @@ def check(run, repo):
                               'change is not final minus initial (%s): %s'
                               % ('TS' if act else 'products/reactants', show(got, 200)), owner.module, fn)
                     n += 1
+            # the flags as a caller may hold them after a comparison or a table lookup (numpy.bool_, 0/1): truthy
+            # values that are not the singleton True select the same states
+            for rev, act in ((0, 1), (1, 1), (1, 0)):
+                got = I.call_method(rxn, 'get_delta_' + X, [], dict(kw, rev=C(rev), act=C(act)))
+                run.check(same(got, d[(bool(rev), bool(act))]), 'REF.delta', '%s.get_delta_%s' % (cname, X),
+                          'rev=%s act=%s (flags given as 0/1)' % (rev, act),
+                          'with truthy flags that are not the singleton True the change is %s, with rev=%s act=%s it '
+                          'is %s' % (show(got, 160), bool(rev), bool(act), show(d[(bool(rev), bool(act))], 160)),
+                          owner.module, fn)
+                n += 1
             if X == 'q':
                 ok_rev = same(d[(True, False)] * d[(False, False)], C(1))
                 ok_act = same(d[(False, True)] / d[(True, True)], d[(False, False)])
